@@ -262,7 +262,11 @@ class SecDict:
             r = run.call(lambda: h.__setitem__(key, arg))
             if pm is None:
                 run.expect_ok(r, "sec_setitem_new")
-                ph = h.props[key]
+                r2 = run.call(lambda: h.props[key])
+                if r2[0] == "exc":
+                    run.violation("sec_dict_mismatch", "sec_setitem_new", "not_in_props:" + type(r2[1]).__name__,
+                                  "sec[%r] = v succeeded but sec.props[%r] raised %r (same handle)" % (key, key, r2[1]))
+                ph = r2[1]
                 m = M.MProperty(key, ph.id, t, mv, s)
                 s.props.append(m)
                 return res(OK, touch={s.id: "may"}, new=[m.id], target=m)
